@@ -157,6 +157,81 @@ def judgeTrip (a b : SR Float) (nilAB nilBA : Bool) (t : Trip) (errs : String) :
       else none
   ⟨spec, diff, (t.p.1 - t.p2.1).abs > 180.0⟩
 
+/-- one in-region occurrence on the reused closure pair: Spec verdict and correspondence -/
+def judgeClosureTrip (fwd inv : Tr Float) (geo : Bool) (after : Bool) (t : Trip) (errs : String) : V :=
+  let m1 := fwd t.p.1 t.p.2
+  let m2 := if !t.ok1 then .ok t.p2 else inv t.q.1 t.q.2
+  let m3 := if !t.ok2 then .ok t.q2 else fwd t.p2.1 t.p2.2
+  -- angles in radians: 3e-12 rad, longitude scaled by cos(lat)
+  let closeRad (impl model : Float × Float) : Bool :=
+    let c := max 0.01 model.2.cos
+    (impl.1 - model.1).abs * c ≤ 3.0e-12 && (impl.2 - model.2).abs ≤ 3.0e-12
+  let leg (ang : Bool) (m : Except Err (Float × Float)) (impl : Float × Float) (ok : Bool) : Option String :=
+    match m, ok with
+    | .ok v, true =>
+      if (if ang then closeRad impl v else closeM impl.1 v.1 && closeM impl.2 v.2) then none
+      else some s!"impl=({impl.1},{impl.2}) model=({v.1},{v.2}) delta=({sci (impl.1 - v.1)},{sci (impl.2 - v.2)})"
+    | .error _, false => none
+    | .ok v, false => some s!"impl=err model=({v.1},{v.2})"
+    | .error e, true => some s!"impl=({impl.1},{impl.2}) model=err:{e.tag}"
+  let diff : Option String :=
+    match leg geo m1 t.q t.ok1, leg true m2 t.p2 (t.ok2 || !t.ok1), leg geo m3 t.q2 (t.ok3 || !t.ok2) with
+    | some w, _, _ => some ("leg1 " ++ w)
+    | _, some w, _ => some ("leg2 " ++ w)
+    | _, _, some w => some ("leg3 " ++ w)
+    | none, none, none => none
+  let ph := if after then "after-rejected-calls" else "first-pass"
+  let spec : Option (String × Bool) :=
+    if !noError t then
+      some (s!"{if after then "error-sticks-after-rejected-call" else "error-reported"} {if errs == "" then "nan-without-error" else errs} p=({t.p.1},{t.p.2}) q=({t.q.1},{t.q.2})", false)
+    else if !closureAngleOK t then
+      some (s!"angle-off unexplained {ph} dlon={lonDistRad t.p.1 t.p2.1} dlat={(t.p.2 - t.p2.2).abs} p=({t.p.1},{t.p.2}) p2=({t.p2.1},{t.p2.2})", false)
+    else if closureMetres t > lenTol then
+      some (s!"metres-off unexplained d={closureMetres t} {ph} p=({t.p.1},{t.p.2}) q=({t.q.1},{t.q.2}) q2=({t.q2.1},{t.q2.2})", false)
+    else none
+  ⟨spec, diff, false⟩
+
+def judgeClosures (n : String) (pts rhs : Tok) : String :=
+  match rhs with
+  | "B" :: r =>
+    match parseSR r with
+    | some (b, "J" :: _rej :: "H" :: hist :: "R" :: r) =>
+      let ra := if (b.name == .tmerc || b.name == .utm) && b.ra && !b.sphere then "ra-" else ""
+      let nm := (classOf b b).splitOn "-" |>.headD "other"
+      let cls := s!"{nm}-{if b.sphere then "sph" else "ell"}-{ra}closures"
+      match parsePositions (n.toNat?.getD 0) pts with
+      | none => "BAD positions"
+      | some ps =>
+        match parseTrips (ps ++ ps) r with
+        | none => "BAD trips"
+        | some ts =>
+          match transformers b with
+          | .error e => s!"DIFF {cls} model-constructor-fails-{e.tag}-impl-does-not"
+          | .ok (fwd, inv) =>
+            let k := ps.length
+            let vs : List V := (ts.zip (List.range ts.length)).map fun (te, i) =>
+              judgeClosureTrip fwd inv (b.name == PName.longlat) (decide (i ≥ k)) te.1 te.2
+            let specs : List String := vs.filterMap fun v => v.spec.map (·.1)
+            let diffs : List String := (vs.filterMap fun v => v.diff) ++
+              (if hist == "1" then ["history-dependent reused-closure-answer-differs-from-fresh-closure"] else [])
+            -- a sticking error is the more specific diagnosis
+            let stick : List String := specs.filter fun (w : String) => (w.splitOn "error-sticks").length > 1
+            match stick, specs, diffs with
+            | w :: _, _, _ => s!"SPEC {cls} {w}"
+            | [], w :: _, _ => s!"SPEC {cls} {w}"
+            | [], [], w :: _ => s!"DIFF {cls} {w}"
+            | [], [], [] => s!"OK {cls}"
+    | some (b, "newerr" :: r) =>
+      match transformers b with
+      | .error _ => "OK closures-constructor-rejects"
+      | .ok _ => s!"SPEC closures constructor-error {" ".intercalate r}"
+    | _ => "BAD dump-B"
+  | "parseerr" :: r => s!"SPEC parse definition-rejected {" ".intercalate r}"
+  | "panic" :: r => s!"SPEC panic panicked {" ".intercalate r}"
+  | "crash" :: r => s!"SPEC crash crashed {" ".intercalate r}"
+  | "timeout" :: r => s!"SPEC timeout timed-out {" ".intercalate r}"
+  | _ => "BAD result"
+
 /-- the model's WGS84 record must be what `proj.Parse("+proj=longlat +datum=WGS84")` derives -/
 def wgsCheck (a : SR Float) (adef : String) : Option String :=
   if adef == "+proj=longlat~+datum=WGS84" then
@@ -207,6 +282,7 @@ def judgeLine (line : String) : String :=
     | "crash" :: r => s!"SPEC crash crashed {" ".intercalate r}"
     | "timeout" :: r => s!"SPEC timeout timed-out {" ".intercalate r}"
     | _ => "BAD result"
+  | "cl" :: _gcls :: _bdef :: n :: pts => judgeClosures n pts rhs
   | _ => "BAD line"
 
 end GeomV.C08
